@@ -15,7 +15,7 @@ from ..hist import build
 ID = 'C15'
 CHARS = ['0', '1', '2', '3', '5', '8', ';', ' ', '?', 'm', '@', '~', '\x7f', '_', '+', '-', '\uff11']
 TOKENS = ['0', '1', '2', '5', '7', '31', '38', '48', '58', '99', '255', '256', '01', 'x', '', '+1', '1_0', ' 7']
-VERB = ['[38', '[32;31', '[1 ', '[?', '[5:1', '[xm', '[A', '[3_1', '[+1', '[01;31', '[ 4', '[38;5;007']
+VERB = ['[38', '[32;31', '[1 ', '[?', '[5:1', '[xm', '[A', '[3_1', '[+1', '[01;31', '[ 4', '[38;5;007', '[38;5;300', '[48;2;1;2;256']
 # the same kind of text handed over as AnsiSetting objects (hist.mk_settings wraps un-prefixed codes)
 VERB_OBJ = ['01;31', ' 4;3 ', '38;5;196;1']
 SINGLE_KNOWN = (set(rt.SET) | set(rt.CLEAR))
@@ -123,7 +123,8 @@ def check_pool_value(v, h=None):
     bad = []
     text, cells = model.alpha_codes(v)
     used = [c for cell in cells for c in cell]
-    if h is not None:
+    if h is not None and not any(op[0] in ('reparse', 'simplify') for op in h[1:]):
+        # (a value that went through the parser may have its settings re-spelled - that is the parser's job)
         # all settings of these pools are handed over as verbatim texts or AnsiSetting objects: whatever is in use must
         # be one of the supplied texts, character for character (a copy that re-spells '01;31' as '1;31' is not intact)
         sup = supplied_texts(h)
@@ -192,6 +193,25 @@ def run_task(task, acc):
                 acc.validated += 10
             for clause, detail in bad:
                 acc.violation(clause, case, detail)
+            # the same value after a trip through the parser (re-parsed rendering, simplify): judged like everything else.
+            # (Not BFS operations: the canonical form ignores the lazily computed flags, so a value that differs from its
+            # source only in them would be merged with it and never be looked at.)
+            if all(ref_valid(c) for cell in model.alpha_codes(v)[1] for c in cell) and '\x1b' not in v.base_str:
+                for suffix in (['reparse'], ['simplify']):
+                    h2 = h + [suffix]
+                    case2 = {'kind': 'pool', 'hist': h2}
+                    acc.current = case2
+                    acc.transitions += 10
+                    try:
+                        bad = check_pool_value(build(h2), h2)
+                    except env.HarnessError:
+                        raise
+                    except Exception as e:  # noqa
+                        bad = [('pool-raises', '%s after %s: %s: %s' % (suffix[0], h, type(e).__name__, e))]
+                    if not bad:
+                        acc.validated += 10
+                    for clause, detail in bad:
+                        acc.violation(clause, case2, detail)
             used = set(c for cell in model.alpha_codes(v)[1] for c in cell)
             if any(not ref_parsable(c) for c in used):
                 acc.counters['states_with_unparsable'] += 1
